@@ -472,15 +472,28 @@ INCLUDE "inc2.jst" # trailing comment
 
 // tailBytes: what follows the cut. The scanner's state machine meets each of them in every one of
 // its states, as the last byte before the end of the file.
-var tailBytes = []string{"", "\\", "\"", "/", "\x7f", "\x00", "\xff", "\r"}
+var tailBytes = []string{"", "\\", "\"", "/", "\x7f", "\x00", "\xff", "\r", "#", "# c", "(", ")", "@", "{", "[", " "}
 
-func truncateCount() int { return (len(richDoc) + 1) * 3 * len(tailBytes) }
+// tailVariants: (line convention, tail) pairs per cut - the first four tails under all three
+// conventions, the others under LF only.
+var tailVariants = func() (v [][2]int) {
+	for t := range tailBytes {
+		for conv := 0; conv < 3; conv++ {
+			if t < 4 || conv == 0 {
+				v = append(v, [2]int{conv, t})
+			}
+		}
+	}
+	return v
+}()
+
+func truncateCount() int { return (len(richDoc) + 1) * len(tailVariants) }
 
 func genTruncated(index int) *Project {
 	n := len(richDoc) + 1
 	off := index % n
-	conv := (index / n) % 3
-	extra := (index / n / 3) % len(tailBytes)
+	tv := tailVariants[(index/n)%len(tailVariants)]
+	conv, extra := tv[0], tv[1]
 	doc := richDoc[:off]
 	switch conv {
 	case 1:
